@@ -74,6 +74,9 @@ type RunResult struct {
 	Wall       time.Duration
 	Complete   bool
 	Workers    int
+	ViolCount  map[string]int
+	violKept   map[string]int
+	NonTrivial int
 }
 
 // PathSample is a written-out explored path for the evidence file.
@@ -117,7 +120,10 @@ func Load(repo string, harnessDir string) (*Interp, error) {
 	}
 	prog, spkgs := ssautil.AllPackages(pkgs, ssa.InstantiateGenerics)
 	prog.Build()
-	in := &Interp{Prog: prog, Pkg: spkgs[0], Fset: prog.Fset, intrinsics: map[string]intrinsic{}, Watch: map[string]bool{}}
+	in := &Interp{Prog: prog, Pkg: spkgs[0], Fset: prog.Fset, intrinsics: map[string]intrinsic{}, Watch: map[string]bool{
+		"(*github.com/hslam/rpc.Call).done":   true,
+		"(*github.com/hslam/rpc.waiter).done": true,
+	}}
 	in.initOK = map[string]bool{
 		"github.com/hslam/rpc": true, "github.com/hslam/code": true, "github.com/hslam/buffer": true,
 		"github.com/hslam/scheduler": true, "io": true, "github.com/hslam/socket": true,
@@ -150,6 +156,8 @@ type worker struct {
 	res  *RunResult
 	mu   *sync.Mutex
 	keep int
+	base *World
+	sigSeen map[string]int
 }
 
 func (wk *worker) newWorld(ex *Explorer, st *Stats) *World {
@@ -174,7 +182,38 @@ func (wk *worker) newWorld(ex *Explorer, st *Stats) *World {
 	w.poolReuse = wk.cfg.PoolReuse
 	w.mapOrder = wk.cfg.MapOrder
 	w.timerBudget = wk.cfg.TimerBudget
+	w.sigSeen = wk.sigSeen
 	return w
+}
+
+// baseWorld runs the package initialisers once per worker and keeps the resulting heap.
+func (wk *worker) baseWorld() (b *World, err string) {
+	if wk.base != nil {
+		return wk.base, ""
+	}
+	var st Stats
+	b = wk.newWorld(&Explorer{}, &st)
+	b.sigSeen = nil
+	defer func() {
+		if r := recover(); r != nil {
+			if a, ok := r.(abortPath); ok {
+				err = "package initialisation: " + a.reason
+				return
+			}
+			err = fmt.Sprintf("package initialisation: engine error %v", r)
+		}
+	}()
+	g0 := b.newG("init")
+	b.cur = g0
+	b.inAtEnd = true // synchronisation operations execute inline: initialisation is sequential
+	b.callFn(g0, wk.in.Pkg.Func("init"), nil, nil, func(Value) {})
+	b.run(g0)
+	b.inAtEnd = false
+	if !g0.done || len(b.gs) != 1 || len(b.ex.dec) != 0 || len(b.pc) != 0 {
+		return nil, "package initialisation is not deterministic/sequential (goroutines, decisions or constraints created)"
+	}
+	wk.base = b
+	return b, ""
 }
 
 // runPath executes one path (the explorer's current decision prefix, extended with default
@@ -211,11 +250,13 @@ func (wk *worker) runPath(ex *Explorer, st *Stats) (w *World) {
 	if hf == nil {
 		w.abort("no harness function zzH_%s", wk.cfg.Harness)
 	}
+	base, berr := wk.baseWorld()
+	if berr != "" {
+		w.abort("%s", berr)
+	}
+	w.cloneFrom(base)
 	g0 := w.newG("main")
-	// package initialisers first (allow-listed packages only), then the harness
 	w.callFn(g0, hf, nil, nil, func(Value) {})
-	initFn := wk.in.Pkg.Func("init")
-	w.callFn(g0, initFn, nil, nil, func(Value) {})
 	w.schedule(g0)
 	if !w.ended {
 		st.Terminal++
@@ -257,7 +298,7 @@ func Explore(in *Interp, cfg *Config, nWorkers int, solverBin string, timeoutMs 
 	if cfg.MaxConcr == 0 {
 		cfg.MaxConcr = 64
 	}
-	res := &RunResult{Harness: cfg.Harness, Reached: map[string]int{}, Asserted: map[string]int{}, Funcs: map[string]bool{}, Workers: nWorkers}
+	res := &RunResult{Harness: cfg.Harness, Reached: map[string]int{}, Asserted: map[string]int{}, Funcs: map[string]bool{}, Workers: nWorkers, ViolCount: map[string]int{}, violKept: map[string]int{}}
 	t0 := time.Now()
 	var mu sync.Mutex
 	jobs := [][]Decision{nil}
@@ -281,7 +322,7 @@ func Explore(in *Interp, cfg *Config, nWorkers int, solverBin string, timeoutMs 
 				return
 			}
 			defer sol.Close()
-			wk := &worker{in: in, cfg: cfg, tt: tt, sol: sol, res: res, mu: &mu}
+			wk := &worker{in: in, cfg: cfg, tt: tt, sol: sol, res: res, mu: &mu, sigSeen: map[string]int{}}
 			var st Stats
 			for {
 				mu.Lock()
@@ -308,8 +349,10 @@ func Explore(in *Interp, cfg *Config, nWorkers int, solverBin string, timeoutMs 
 
 				ex := &Explorer{dec: append([]Decision{}, job...), frozen: len(job)}
 				for {
+					before := st.FeasQueries + st.Obligations - st.TrivialObl + st.SchedPoints
 					w := wk.runPath(ex, &st)
 					st.Paths++
+					nontriv := st.FeasQueries+st.Obligations-st.TrivialObl+st.SchedPoints > before
 					st.Steps += w.steps
 					if len(ex.dec) > st.MaxDepth {
 						st.MaxDepth = len(ex.dec)
@@ -325,6 +368,9 @@ func Explore(in *Interp, cfg *Config, nWorkers int, solverBin string, timeoutMs 
 						st.PathsCrashed++
 					}
 					mu.Lock()
+					if nontriv && w.end != EndAssumeFalse {
+						res.NonTrivial++
+					}
 					for k := range w.reached {
 						res.Reached[k]++
 					}
@@ -339,11 +385,17 @@ func Explore(in *Interp, cfg *Config, nWorkers int, solverBin string, timeoutMs 
 							res.Aborts = append(res.Aborts, w.endMsg+" @ "+decString(ex.snapshot()))
 						}
 					}
-					res.Violations = append(res.Violations, w.violations...)
+					for _, v := range w.violations {
+						res.ViolCount[v.Sig]++
+						if !v.Light && res.violKept[v.Sig] < 3 {
+							res.violKept[v.Sig]++
+							res.Violations = append(res.Violations, v)
+						}
+					}
 					if len(res.Samples) < 6 && w.end != EndAssumeFalse && (len(res.Samples) < 3 || len(w.violations) > 0) {
 						res.Samples = append(res.Samples, PathSample{Decisions: decString(ex.snapshot()), Inputs: w.inputValues(nil), Trace: tail(w.trace, 30), End: endString(w)})
 					}
-					tooMany := maxViol > 0 && len(res.Violations) >= maxViol
+					tooMany := maxViol > 0 && len(res.ViolCount) >= maxViol
 					timedOut := time.Now().After(deadline)
 					if tooMany || timedOut {
 						if timedOut && !stop {
@@ -397,6 +449,9 @@ func endString(w *World) string {
 	}
 	return "?"
 }
+
+// DecisionsString renders a decision log.
+func DecisionsString(d []Decision) string { return decString(d) }
 
 func decString(d []Decision) string {
 	var sb strings.Builder
